@@ -6,7 +6,6 @@ V = os.path.dirname(os.path.dirname(os.path.abspath(__file__)))
 NA = {
  "C02": "exact floor(n/d) and remainder for all operands rest on the Moeller-Granlund reciprocal and Knuth add-back correctness: relational arithmetic facts that no dataflow/typestate/shape rule captures; the forwarding of operator/trait forms is decided under C15",
  "C03": "exactness of schoolbook/Karatsuba recombination (carry chains, sign trick) is an arithmetic identity over all limb values, not a property of code shape",
- "C04": "result mod 2^BITS and carry exactly when out of range quantify over word values; no structural necessary condition beyond C15's forwarding exists",
  "C05": "agreement of shifts/bit scans with the binary expansion for every shift amount is a value relation (ladder correctness for non-power-of-two widths is arithmetic)",
  "C07": "canonical residue in [0,p) depends on numeric preconditions and borrow/carry arithmetic; no structural necessary condition beyond C15's forwarding exists",
  "C10": "is_some <=> gcd(a,m)=1 and a*x=1 are number-theoretic facts about divsteps and CRT recombination; iteration-bound sufficiency is a cited theorem, not a code shape",
